@@ -306,6 +306,25 @@ def build(tier="quick", seed=0):
         pack.add(Obligation(name, lambda tier, name=name, th_grp=th_grp, want=want, expr=expr: prove_paths(name, th_grp, lambda p, want=want: (p.value == [want, want], f"{expr!r} on a grouped record: interpreted / compiled give {p.value}, the documented answer is {want}")),
                             replay=lambda w, expr=expr, want=want: {"call": "c07_grouped", "args": {"expr": expr, "want": want}}, functions=FU, mode="helper functions over one grouped record"))
 
+    # typed field matchers look into nested records (record / record[] fields) for every operator, membership included
+    for expr, want in (('Type.string in ["x"]', True), ('Type.string in ["z", "q"]', True), ('Type.string not in ["x"]', False), ('Type.string in ["nowhere"]', False), ('Type.string == "x"', True), ('"z" in [Type.string]', True)):
+        name = f"C07.nested[{expr}]"
+
+        def th_nested(expr=expr):
+            A = it.call(RD, ["c07/na", [("string", "s")]], {})
+            B = it.call(RD, ["c07/nb", [("string", "t"), ("record", "sub"), ("record[]", "subs")]], {})
+            b = it.call(B, [], {"t": "y", "sub": it.call(A, [], {"s": "x"}), "subs": [it.call(A, [], {"s": "z"})]})
+            out = []
+            for cls in ("Selector", "CompiledSelector"):
+                try:
+                    out.append(bool(it.truth(it.call(it.getattr_(it.call(sel.g[cls], [expr], {}), "match"), [b], {}))))
+                except PyRaise as e:
+                    out.append("raise " + e.cls_name)
+            return out
+
+        pack.add(Obligation(name, lambda tier, name=name, th_nested=th_nested, want=want, expr=expr: prove_paths(name, th_nested, lambda p, want=want: (p.value == [want, want], f"{expr!r} on a record holding nested records (t='y', sub.s='x', subs[0].s='z'): interpreted / compiled give {p.value}, the documented answer is {want}")),
+                            replay=lambda w, expr=expr, want=want: {"call": "c07_nested", "args": {"expr": expr, "want": want}}, functions=FU, mode="typed matchers over one record with nested records"))
+
     # outside the language: rejected with an error, never evaluated to a value (interpreted engine)
     for e in REJECTED:
         name = f"C07.reject[{e}]"
